@@ -19,8 +19,7 @@ from vlib import sqlo
 PROP = 'C18'
 HERE = os.path.dirname(os.path.dirname(os.path.abspath(__file__)))
 
-KEY_PORT0 = 'C18:port-zero'
-KEY_HOSTCOLON = 'C18:generic:host-colon'
+KEY_PORTNOHOST = 'C18:generic:port-without-host'
 KEY_SLASHMEM = 'C18:sqlite:/:memory:'
 
 META = {
@@ -36,19 +35,21 @@ META = {
                    'is compared with the real code on built and on hostile raw URIs.'),
     'level_note': ('Trusted: Lean kernel; extractor vlib/extractors/uri.py; the hand-written model of CPython 3.12 '
                    'urllib.parse (quote, unquote, urlsplit/urlparse, parse_qsl, UTF-8 replace-decoding), tied by sampling. '
-                   'FALSE-witness theorems: port 0, host containing ":", sqlite file "/:memory:".'),
+                   'FALSE-witness theorems: port without host, sqlite file "/:memory:".'),
     'rule': ('cases = generic component tuples (class, user, password, host, port, db), sqlite file names, raw URI '
              'strings (generated, and single-character mutations of built URIs), port texts; distinct = distinct tuple / '
              'string; non-trivial = contains a character outside the unreserved set or a port'),
     'trusted': ['model of CPython 3.12.1 urllib.parse.quote / unquote / urlsplit / urlparse / parse_qsl and of '
                 'bytes.decode("utf-8", "replace") (Model/Uri.lean), cross-checked against the interpreter on every case',
                 'decimal rendering / int() of the port (decDigits / parseDec), cross-checked'],
-    'modelled': ['bracketed hosts: ipaddress validation of [..] is not modelled (parser answers "unmodelled", comparison skipped, oracle still run)',
+    'modelled': ['ipaddress.ip_address / IPvFuture validation of a bracketed host is a hand-written model (bracketedHostOk), compared on every raw URI with brackets',
                  'non-ASCII netloc: the NFKC check of urlsplit and Unicode str.lower() are not modelled; compared only where both are the identity',
                  'os.name == "nt" branch of _parseURI', 'the sqlite engine / file system (executed for the same-file oracle)'],
     'assumptions': ['component strings are str without lone surrogates (quote raises UnicodeEncodeError otherwise; checked as such)',
                     'None and "" are the same "absent" value for user, password, host (Python truthiness in uri() and in _parseURI)',
-                    'a host is a DNS name / IPv4 / IPv6 literal: hosts containing / ? # @ [ ] blanks or control characters are outside the property; '
+                    'port 0 is this library\'s "unspecified port" (coordinator decision): uri() omits a falsy port and `host:0` parses to None; '
+                    '0 and None are the same absent port, ports > 65535, negative or non-numeric must be rejected',
+                    'a host is a DNS name / IPv4 address / IPv6 literal: hosts containing / ? # @ [ ] blanks or control characters, or a colon without being an IPv6 literal, are outside the property; '
                     'host case is not significant (urlparse lower-cases it)',
                     'uri() reports no extra parameters (debug, cache, timeout …): the query part of a reported URI is always empty',
                     'in-memory sqlite databases are private to a connection: for :memory: only the parsed file name is checked'],
@@ -357,7 +358,16 @@ def has_surrogate(s):
     return s is not None and any(0xD800 <= ord(c) <= 0xDFFF for c in s)
 
 
+def is_ipv6_literal(h):
+    import ipaddress
+    try:
+        return isinstance(ipaddress.ip_address(h), ipaddress.IPv6Address)
+    except ValueError:
+        return False
+
+
 def host_class(h):
+    """a host is a DNS name / IPv4 address (no URI delimiters, blanks, controls) or an IPv6 literal"""
     if not h:
         return 'none'
     if any(c in '/?#@[]' or ord(c) <= 0x20 or c == '\x7f' for c in h):
@@ -366,7 +376,9 @@ def host_class(h):
         if unicodedata.normalize('NFKC', h) != h or any(unicodedata.category(c) in ('Zs', 'Cc', 'Cf', 'Cn', 'Co') for c in h):
             return 'outside'
     if ':' in h:
-        return 'colon'
+        if not is_ipv6_literal(h):
+            return 'outside'
+        return 'ipv6-case' if h.partition('%')[0].lower() != h.partition('%')[0] else 'ipv6'
     if h.lower() != h:
         return 'case'
     return 'plain'
@@ -398,34 +410,32 @@ def check_generic_oracle(ctx, case, uri, err):
         ctx.oracle_fail('C18:generic:build-raises:%s' % err, 'uri() raises %s for %r' % (err, generic_desc(case)), case)
         return 'build-raises'
     text, t = real_parse(uri)
+    if port == 0:
+        port = None        # 0 is this library's "unspecified port" (uri() omits a falsy port, `host:0` parses to None)
     in_range = port is None or (isinstance(port, int) and 1 <= port <= 65535)
-    if port is not None and port != 0 and not in_range and host:
+    if port is not None and not in_range and host:
         if text != 'err ValueError':
             ctx.oracle_fail('C18:bad-port-not-rejected:%s' % port,
                             'port %r: the reported URI %s is accepted by _parseURI as %s' % (port, short(uri), text), case)
         return 'port-out-of-range'
-    want_port = port if host else None     # uri() cannot express a port without a host
-    want = (user or None, pw or None, host or None, want_port, norm_db(db))
+    want = (user or None, pw or None, host or None, port if in_range else None, norm_db(db))
     got = None if t is None else tuple(t[:5])
-    if hc == 'case' and got is not None and got[2] is not None and got[2].lower() == host.lower():
+    if hc in ('case', 'ipv6-case') and got is not None and got[2] is not None and got[2].lower() == host.lower():
         got = got[:2] + (host,) + got[3:]      # host names are case-insensitive; urlparse lower-cases them
     ok = got == want and t[5] == {}
     if ok:
         return 'ok-' + hc
     what = 'parse(build(%r)): reported URI %s parses to %s, expected %r' % (generic_desc(case), short(uri, 100), text if t is None else got, want)
-    if hc == 'colon':
-        ctx.oracle_fail(KEY_HOSTCOLON, what, case)
-        return 'fail-host-colon'
-    if port == 0 and host and got is not None and got[:3] == want[:3] and got[4] == want[4] and got[3] is None:
-        ctx.oracle_fail(KEY_PORT0, what, case)
-        return 'fail-port-zero'
+    if not host and port is not None and got is not None and got[:3] == want[:3] and got[4] == want[4] and got[3] is None:
+        ctx.oracle_fail(KEY_PORTNOHOST, what, case)
+        return 'fail-port-without-host'
     ctx.oracle_fail('C18:generic:%s' % json.dumps([case.get(k) for k in ('scheme', 'user', 'pw', 'host', 'port', 'db')],
                                                   ensure_ascii=True), what, case)
     return 'fail'
 
 
 def port_text_ok(p):
-    return p.isascii() and p.isdigit() and 1 <= int(p) <= 65535
+    return p.isascii() and p.isdigit() and 0 <= int(p) <= 65535
 
 
 # ---------------------------------------------------------------------------------------- scratch files
@@ -515,7 +525,7 @@ class _Once(object):
         return getattr(self._ctx, name)
 
     def oracle_fail(self, key, what, case):
-        if key in (KEY_PORT0, KEY_HOSTCOLON, KEY_SLASHMEM):
+        if key in (KEY_PORTNOHOST, KEY_SLASHMEM):
             if key in self._seen:
                 self._ctx.count('finding-repeat:' + key)
                 return
@@ -629,15 +639,12 @@ def run(ctx):
         if stripped == '':
             kind = 'port:empty'
         elif port_text_ok(stripped):
-            if t is None or t[3] != int(stripped):
+            if t is None or t[3] != (int(stripped) or None):      # 0 = unspecified
                 ctx.oracle_fail('C18:port-text:%s' % ascii(p), 'valid port %r: %s gives %s' % (p, uri, text), {'raw_uri': uri})
         elif text != 'err ValueError':
             kind = 'port:bad-accepted'
-            if stripped.isascii() and stripped.isdigit() and int(stripped) == 0:
-                ctx.oracle_fail(KEY_PORT0, 'port text %r is out of range 1-65535 but %s parses to %s' % (p, uri, text), {'raw_uri': uri})
-            else:
-                ctx.oracle_fail('C18:bad-port-not-rejected:%s' % ascii(p),
-                                'port text %r is not a number in 1-65535 but %s parses to %s' % (p, uri, text), {'raw_uri': uri})
+            ctx.oracle_fail('C18:bad-port-not-rejected:%s' % ascii(p),
+                            'port text %r is not a number in 0-65535 but %s parses to %s' % (p, uri, text), {'raw_uri': uri})
         else:
             kind = 'port:rejected'
         ctx.case(('p', p, auth), nontrivial=True, kind=kind)
@@ -679,9 +686,6 @@ def run(ctx):
     outs = ctx.model([t[2] for t in todo])
     if outs is not None:
         for (stream, desc, line, impl, comparable), m in zip(todo, outs):
-            if m == 'unmodelled':
-                ctx.count('model:unmodelled(bracketed host)')
-                continue
             if not comparable:
                 ctx.count('model:skipped(non-ASCII netloc, NFKC/lower not identity)')
                 continue
